@@ -23,6 +23,18 @@ def is_ne(k, t):
     return k in ('<Byte32 as PartialEq>::ne',)
 
 
+def witnesses_authenticated(ctx, rule):
+    P = ctx.prog
+    T = ctx.body('SendTransactionsProofProcess::execute_internally')
+    bodies = [T] + P.closures_of(T)
+    wh = [k for b in bodies for _, k, t in P.call_keys(b) if k.endswith('calc_witness_hash') or k.endswith('calc_witnesses_root')]
+    wr = [t for b in bodies for _, k, t in P.call_keys(b) if k.endswith('FilteredBlock::witnesses_root') or k.endswith('FilteredBlockReader::witnesses_root')]
+    ctx.floor(rule, 'uses of FilteredBlock::witnesses_root in the transactions proof handler', len(wr), 1)
+    ctx.ob(rule, T.name, 'the witnesses of a stored fetched transaction are authenticated against the witnesses root of its block', bool(wh),
+           failing_history=None if wh else 'honest SendTransactionsProof for a requested committed transaction whose `witnesses` are replaced by arbitrary bytes (tx hash '
+           'unchanged): accepted, stored by add_fetched_tx and served by get_transaction / fetch_transaction as the committed transaction')
+
+
 def run(ctx):
     P = ctx.prog
     ctx.explanation, ctx.not_decided = EXPLANATION, NOT_DECIDED
@@ -115,6 +127,36 @@ def run(ctx):
     ctx.ob('C02.r6', V.name, 'headers given to the MMR verification are rejected unless their block numbers are pairwise distinct', bool(uniq),
            failing_history=None if uniq else 'request [A, B]: A committed in real block R at height N, B only in a forged block F at height N (easy compact target); response '
            '[R{A}, F{B}] + the genuine proof for R: the library drops F\'s leaf, the proof verifies, B is stored as committed')
+    # F44: transactions_root = merkle_root([raw_transactions_root, witnesses_root]); the CBMT proof covers the tx hashes (raw part),
+    # witnesses_root is used as the peer gives it.  The stored / served transaction includes its witnesses, so they are authenticated
+    # only if the witness hashes of the transactions are tied to witnesses_root (shared with C16)
+    witnesses_authenticated(ctx, 'C02.r2')
+    # r7 (F42): a matched block is downloaded and indexed without a blocks proof when its record says `proved`.  The flag is
+    # persisted; it is only written as true by BlockFiltersProcess for the last header of the prove state, and a record that
+    # commit_prove_state keeps across a fork is rewritten with every flag false (its blocks may be off the new chain)
+    ctx.only_callers('C02.r7', 'Storage::add_matched_blocks', {'BlockFiltersProcess::execute', 'LightClientProtocol::commit_prove_state'}, 1)
+    CP = ctx.body('LightClientProtocol::commit_prove_state')
+    rewrites = P.call_sites(CP, 'Storage::add_matched_blocks')
+    cleared = [c for c in P.closures_of(CP, transitive=False)
+               if any(st.kind == 'assign' and st.lhs.strip() == '_0' and re.match(r'^\(.*, const false\)$', st.rhs.strip())
+                      for blk in c.blocks.values() if not blk.cleanup for st in blk.stmts)]
+    cdu = DefUse(CP)
+    ok = False
+    for bid, t in rewrites:
+        tags = [re.search(r'\[closure@([^\]]+)\]', c.sig_args).group(1) for c in cleared]
+        org = cdu.origins(t.args[3], stop_at_calls=False)
+        maps = [o for o in org if o[0] == 'call' and o[1].endswith('Iterator>::map')]
+        for o in maps:
+            mt = CP.blocks[o[2]].term
+            if any(('closure@' + g) in mt.callee for g in tags) and cdu.from_call(mt.args[0], 'Storage::get_latest_matched_blocks'):
+                ok = True
+    ctx.ob('C02.r7', CP.name, 'a matched-blocks record kept across a fork is rewritten with all proved flags false', ok,
+           rewrites=len(rewrites), failing_history=None if ok else 'tip T matched and recorded (T, proved=true), block withheld; 1-block reorg replaces T; new '
+           'last state proved (fork point below T): the kept record still says proved, SendBlock(T) is accepted without proof and T is indexed')
+    if rewrites:
+        # ... and only on the fork path, before the rollback and the new last state
+        ctx.ob('C02.r7', CP.name, 'the rewrite precedes rollback_to_block on every path',
+               all(any(P.cfg(CP).reachable_from([bid]).__contains__(rb) for rb, _ in P.call_sites(CP, 'Storage::rollback_to_block')) for bid, _ in rewrites))
     # reviewed reference of the checker functions' decision structure (engine/census.py)
     from rules import census_fns
     census_fns.run(ctx, 'C02')
